@@ -34,7 +34,7 @@ from ..core import Ctx
 from ..exc import ExcModel
 from ..loader import AnalysisError, FunctionInfo, norm, walk_scope
 from ..resolve import call_name, last_attr
-from ..util import calls, calls_named, enclosing, impl_invocations, in_body, mini_eval, names_in, one, some, txt
+from ..util import calls, enclosing, impl_invocations, in_body, mini_eval, names_in, one, some, txt
 from ._g5_helpers import AbsExc, AbsObj, CFGx, FlowSearch, Interp, NullLogger, Raised, make_raisers, memoize_resolver, schema_errors
 
 META = {
@@ -319,8 +319,11 @@ def run(ctx: Ctx) -> None:
                 env: dict[str, object] = {h.name: exc}
                 for k in env_names:
                     env[k] = exc
+                for nm in names_in(msg_expr) - set(env):
+                    if nm in local_names(fi):
+                        env[nm] = Opaque(nm)  # other locals: opaque placeholders (only the exception's text matters)
                 try:
-                    m = Interp(ctx).eval(fi, msg_expr, env)
+                    m = Interp(ctx, names={"_current_request_id": AbsObj("cv", get=lambda: "")}).eval(fi, msg_expr, env)
                 except Raised as r:
                     findings.setdefault((render.fq, label), []).append(f"{site_key}: rendering raises {r.cls}")
                     continue
@@ -329,7 +332,7 @@ def run(ctx: Ctx) -> None:
                     continue
                 try:
                     recs, _ = emit_records(ctx, status="error", error_type="ValueError", error_message=m, protocol_hash="ab" * 32)
-                except Raised as r:
+                except Raised:
                     recs = []
                 got = recs[0].get("error_message") if recs else None
                 if label == "error-message-nonempty":
@@ -370,13 +373,12 @@ def run(ctx: Ctx) -> None:
         fi = ctx.fn(spec)
         disp = some(impl_invocations(fi), "implementation dispatch", fi)
         emits = some(emit_calls_by_fn.get(fi.fq, []), "access-log emission", fi)
-        fl = sorted(status_names.get(fi.fq, ()))
-        _once(ctx, model, fi, disp, emits, user_call, partial, flag=fl[0] if len(fl) == 1 else None)
+        _once(ctx, model, fi, disp, emits, user_call, partial)
 
     tel = ctx.fn(TELEMETRY)
     yields = [n for n in walk_scope(tel.node) if isinstance(n, ast.Expr) and isinstance(n.value, ast.Yield)]
     y = one(yields, "yield of the telemetry envelope", tel)
-    _once(ctx, model, tel, [y], some(emit_calls_by_fn.get(tel.fq, []), "emission in the telemetry envelope", tel), user_call, partial, flag=None, dispatch_is_yield=True)
+    _once(ctx, model, tel, [y], some(emit_calls_by_fn.get(tel.fq, []), "emission in the telemetry envelope", tel), user_call, partial, dispatch_is_yield=True)
     # outcome fields are what the envelope logs
     tec = emit_calls_by_fn[tel.fq][0]
     outcome_vars = {t.id for n in walk_scope(tel.node) if isinstance(n, ast.Assign) and isinstance(n.value, ast.Call) and last_attr(n.value) == "_DispatchOutcome" for t in n.targets if isinstance(t, ast.Name)}
@@ -524,6 +526,35 @@ def run(ctx: Ctx) -> None:
 
 
 # ---------------------------------------------------------------------------------------------
+class Opaque:
+    """Placeholder for a local whose value does not matter to the clause (any attribute is again opaque)."""
+
+    def __init__(self, name: str) -> None:
+        self._n = name
+
+    def __getattr__(self, k: str) -> "Opaque":
+        if k.startswith("__"):
+            raise AttributeError(k)
+        return Opaque(f"{self._n}.{k}")
+
+    def __str__(self) -> str:
+        return f"<{self._n}>"
+
+    __repr__ = __str__
+
+
+_locals_cache: dict[str, set[str]] = {}
+
+
+def local_names(fi: FunctionInfo) -> set[str]:
+    if fi.fq not in _locals_cache:
+        a = fi.node.args
+        out = {p.arg for p in [*a.posonlyargs, *a.args, *a.kwonlyargs]}
+        out |= {n.id for n in walk_scope(fi.node) if isinstance(n, ast.Name) and isinstance(n.ctx, ast.Store)}
+        _locals_cache[fi.fq] = out
+    return _locals_cache[fi.fq]
+
+
 def _reaches(cfg, a: ast.AST, b: ast.AST) -> bool:
     try:
         return bool(cfg.reach(cfg.done(a), include_start=False) & cfg.attempt(b))
@@ -562,7 +593,7 @@ def _under_envelope(ctx: Ctx, fi: FunctionInfo, node: ast.AST, tel: FunctionInfo
     return bool(callers) and all(_under_envelope(ctx, g, c, tel, depth + 1) for g, c in callers)
 
 
-def _once(ctx: Ctx, model: ExcModel, fi: FunctionInfo, disp: list[ast.AST], emits: list[ast.Call], user_call, partial, *, flag: str | None, dispatch_is_yield: bool = False) -> None:
+def _once(ctx: Ctx, model: ExcModel, fi: FunctionInfo, disp: list[ast.AST], emits: list[ast.Call], user_call, partial, *, dispatch_is_yield: bool = False) -> None:
     """Exactly-once emission on CFG x (flag, count, dispatched, origin-of-pending-exception)."""
     result_vars: set[str] = set()
     for n in walk_scope(fi.node):
@@ -587,6 +618,32 @@ def _once(ctx: Ctx, model: ExcModel, fi: FunctionInfo, disp: list[ast.AST], emit
     emit_stmts = {id(cfg.stmt_of(e)) for e in emits}
     disp_stmts = {id(cfg.stmt_of(d)) for d in disp}
 
+    # constant-only locals (status flags): tracked exactly, whatever they are called
+    assigns: dict[str, list[ast.expr | None]] = {}
+    for n in walk_scope(fi.node):
+        if isinstance(n, (ast.Assign, ast.AnnAssign)):
+            for t in (n.targets if isinstance(n, ast.Assign) else [n.target]):
+                for nm in (x for x in ast.walk(t) if isinstance(x, ast.Name)):
+                    assigns.setdefault(nm.id, []).append(n.value if isinstance(t, ast.Name) else None)
+        elif isinstance(n, (ast.AugAssign, ast.NamedExpr)):
+            for nm in (x for x in ast.walk(n.target) if isinstance(x, ast.Name)):
+                assigns.setdefault(nm.id, []).append(None)
+        elif isinstance(n, (ast.For, ast.AsyncFor, ast.With, ast.AsyncWith, ast.ExceptHandler)):
+            tg = [n.target] if isinstance(n, (ast.For, ast.AsyncFor)) else [i.optional_vars for i in n.items if i.optional_vars is not None] if isinstance(n, (ast.With, ast.AsyncWith)) else []
+            for t in tg:
+                for nm in (x for x in ast.walk(t) if isinstance(x, ast.Name)):
+                    assigns.setdefault(nm.id, []).append(None)
+            if isinstance(n, ast.ExceptHandler) and n.name:
+                assigns.setdefault(n.name, []).append(None)
+    params = {p.arg for p in [*fi.node.args.posonlyargs, *fi.node.args.args, *fi.node.args.kwonlyargs]}
+    tested = set()
+    for n in walk_scope(fi.node):
+        if isinstance(n, (ast.If, ast.While)):
+            tested |= names_in(n.test)
+    flags = sorted(nm for nm, vs in assigns.items() if nm in tested and nm not in params and vs and all(isinstance(v, ast.Constant) for v in vs))
+    fidx = {nm: i for i, nm in enumerate(flags)}
+    UNSET = "<unset>"
+
     def step(node, s):
         fl, cnt, dsp, org = s
         st = node.stmt
@@ -597,10 +654,11 @@ def _once(ctx: Ctx, model: ExcModel, fi: FunctionInfo, disp: list[ast.AST], emit
         if node.kind == "done":
             if id(st) in emit_stmts:
                 cnt = min(cnt + 1, 2)
-            if flag is not None and isinstance(st, (ast.Assign, ast.AnnAssign)):
+            if flags and isinstance(st, (ast.Assign, ast.AnnAssign)) and isinstance(st.value, ast.Constant):
                 tg = st.targets if isinstance(st, ast.Assign) else [st.target]
-                if any(isinstance(t, ast.Name) and t.id == flag for t in tg):
-                    fl = st.value.value if isinstance(st.value, ast.Constant) else None
+                for t in tg:
+                    if isinstance(t, ast.Name) and t.id in fidx:
+                        fl = fl[: fidx[t.id]] + (st.value.value,) + fl[fidx[t.id] + 1:]
         return (fl, cnt, dsp, org)
 
     def step_exc(node, s, cls):
@@ -608,24 +666,26 @@ def _once(ctx: Ctx, model: ExcModel, fi: FunctionInfo, disp: list[ast.AST], emit
         return (fl, cnt, dsp, (getattr(node.stmt, "lineno", 0), norm(header_text(node), 50), cls))
 
     def decide(st, s):
-        if flag is None or s[0] is None:
+        used = names_in(st.test)
+        if not used or not used <= set(fidx):
             return None
-        if names_in(st.test) != {flag}:
+        env = {nm: s[0][fidx[nm]] for nm in used}
+        if any(v == UNSET for v in env.values()):
             return None
         try:
-            return bool(mini_eval(st.test, {flag: s[0]}))
+            return bool(mini_eval(st.test, env))
         except AnalysisError:
             return None
 
     fs = FlowSearch(fi, cfg, model, raisers=raisers, step=step, decide=decide, step_exc=step_exc)
-    seen = fs.run((None, 0, False, None))
+    seen = fs.run((tuple(UNSET for _ in flags), 0, False, None))
     allstates = [s for ss in seen.values() for s in ss]
     ctx.check(not any(s[1] >= 2 for s in allstates), "RF-DOM", "emits-at-most-once", fi, emits[0], ok=f"no path passes two emissions ({len(emits)} emission site(s), {len(allstates)} abstract states explored)",
               bad="a path emits two access-log records for one call")
     ex_states = seen.get(cfg.exit, set())
     bad_ret = [s for s in ex_states if s[2] and s[1] != 1]
     ctx.check(not bad_ret, "RF-DOM", "emits-once-on-every-return-after-dispatch", fi, emits[0], ok="every return after the dispatch has emitted exactly one record",
-              bad=f"a normal return after the dispatch has emitted {sorted({s[1] for s in bad_ret})} record(s) (flag values {sorted({str(s[0]) for s in bad_ret})})")
+              bad=f"a normal return after the dispatch has emitted {sorted({s[1] for s in bad_ret})} record(s) (flags {flags} = {sorted({str(s[0]) for s in bad_ret})[:3]})")
     rz = seen.get(cfg.raise_exit, set())
     bad_exc = sorted({s[3] for s in rz if s[2] and s[1] == 0 and s[3] is not None})
     ctx.check(not bad_exc, "RF-DOM", "emits-on-every-exception-exit-after-dispatch", fi, emits[0], ok="every credible exception that leaves the function after the dispatch has emitted a record first",
